@@ -146,7 +146,7 @@ def proto_stubs():
 class ActorModel:
     """Summary of one target actor (index i, kind) in a universe of n targets."""
 
-    def __init__(self, prog, kind, i, n, watch, dep_syms=None, all_senders=False):
+    def __init__(self, prog, kind, i, n, watch, dep_syms=None, all_senders=False, dup_sym=None):
         self.prog = prog
         init_types(prog)
         self.kind = kind
@@ -160,6 +160,9 @@ class ActorModel:
             self.dep_names = [tname(j) for j in range(n) if j != i]
             self.req_names = ['ROOT'] + [tname(j) for j in range(n) if j != i]
         self.dep_syms = dep_syms if dep_syms is not None else [z3.Bool('dep_%d_%d' % (i, j)) for j in range(len(self.dep_names))]
+        # LOCAL only: the first potential dependency may be listed twice (nothing de-duplicates `dependencies` + `X.output`, or a bare
+        # and a qualified spelling of one target)
+        self.dup_sym = dup_sym
         self.world = ProtoWorld()
         self.world.owner = ''
         self.stubs = proto_stubs()
@@ -173,7 +176,10 @@ class ActorModel:
     # the coroutine start: launch_target_actor(...) then run the spawned task
     def _start(self, I):
         fd = self.prog.find_fn('target_actor::launch_target_actor')
-        target = mk_target(self.kind, self.me, list(zip(self.dep_syms, self.dep_names)), input_nonempty=True)
+        deps = list(zip(self.dep_syms, self.dep_names))
+        if self.dup_sym is not None and deps:
+            deps.append((z3.And(self.dup_sym, self.dep_syms[0]), self.dep_names[0]))
+        target = mk_target(self.kind, self.me, deps, input_nonempty=True)
         wopt = REnum('WatchOption', 'Enabled' if self.watch else 'Disabled')
         res = I.call_fn(fd, [target, wopt, Opaque('Sender', chan='OUT')])
         res = I.deref(res)
